@@ -385,18 +385,23 @@ def elision(ctx, rule="C02.elision"):
     ctx.floor(rule, 10)
 
 
-def pure_decompose(ctx, rule="C02.pure-decompose"):
-    ctx.explain(f"{rule}: _decompose / decompose of every operation class is a function of (parameters, reg, options): it "
-                "stores nothing in `self` (no attribute assignment, no item store, no mutator call on an attribute) - a "
-                "memoised command list would carry the registers, and the Command objects, of the first call into every later "
-                "application of the same operation object.")
+def pure_decompose(ctx, rule="C02.pure-decompose", methods=("_decompose", "decompose"), exempt=()):
+    if methods is not None:
+        ctx.explain(f"{rule}: _decompose / decompose of every operation class is a function of (parameters, reg, options): it "
+                    "stores nothing in `self` (no attribute assignment, no item store, no mutator call on an attribute) - a "
+                    "memoised command list would carry the registers, and the Command objects, of the first call into every "
+                    "later application of the same operation object.")
+    else:
+        ctx.explain(f"{rule}: operation objects are values shared between programs, their compiled / optimised copies and "
+                    "successive runs: outside __init__ no method of an operation class stores anything in `self` (exempt: "
+                    f"{', '.join(exempt)} - the temporary overwrite checked by the paired-restore rule).")
     ops = op_classes(ctx.tree)
     from ..dataflow import MUTATORS
     n = 0
     for cn, c in sorted(ops.items()):
-        for mn in ("_decompose", "decompose"):
+        for mn in (methods if methods is not None else sorted(c.methods)):
             f = c.methods.get(mn)
-            if f is None:
+            if f is None or mn == "__init__" or f"{cn}.{mn}" in exempt:
                 continue
             n += 1
             bad = None
@@ -420,7 +425,7 @@ def pure_decompose(ctx, rule="C02.pure-decompose"):
             ctx.ob(rule, f.site, bad is None, "" if bad is None else f"`{ast.unparse(bad)[:60]}` stores state in the operation object "
                    "while decomposing: later decompositions of the same object can return commands built for another register",
                    role="no-self-store", line=(bad.lineno if bad is not None else f.node.lineno))
-    ctx.floor(rule, 15)
+    ctx.floor(rule, 15 if methods is not None else 60)
 
 
 def product_units(ctx, rule="C02.product-units"):
